@@ -142,7 +142,10 @@ static void ro_snap(ro_ctx_t *c)
 #ifndef RO_E_LIVE
 #define RO_E_LIVE (-1LL)
 #endif
-    printf(",rm_buckets=%zu,rm_count=%zu,alloc_calls=%lld,emit_calls=%lld,live_errors=%lld,e_live=%lld} ", c->refmap.buckets, c->refmap.count, c->alloc_calls, c->emit_calls, c->live_errors, (long long)RO_E_LIVE);
+#ifndef RO_C_LIVE
+#define RO_C_LIVE (-1LL)
+#endif
+    printf(",rm_buckets=%zu,rm_count=%zu,alloc_calls=%lld,emit_calls=%lld,live_errors=%lld,e_live=%lld,c_live_bytes=%lld} ", c->refmap.buckets, c->refmap.count, c->alloc_calls, c->emit_calls, c->live_errors, (long long)RO_E_LIVE, (long long)RO_C_LIVE);
 }
 
 static void ro_fin(ro_ctx_t *c)
@@ -166,7 +169,8 @@ static int ro_is_failure(const char *name, long long r)
     static const char *neg[] = { "sb", "st", "sv", "so", "sS", "su", "tv", "tov", "tS", "rs", "jp", "jr", 0 };   /* int: 0 ok, else failure */
     static const char *zero[] = { "ss", "ta", "to", "xv", "xo", "aS", "xu", "uf", "es", "et", "ev", "eo", "eS", "eu", "cu", "eb", "cb", "cs", "cS", "cv", "emb", "cln", 0 };
     int k;
-    if (!strcmp(name, "pj")) return r < 0 || r >= 1000000;   /* init failed / printer error code set */
+    if (!strcmp(name, "pj")) return r < 0 || r >= 1000000;
+    if (!strcmp(name, "ri")) return r < 0;   /* init failed / printer error code set */
     for (k = 0; neg[k]; ++k) if (!strcmp(name, neg[k])) return r != 0;
     for (k = 0; zero[k]; ++k) if (!strcmp(name, zero[k])) return r == 0;
     return 0;
@@ -300,7 +304,15 @@ static int ro_op(ro_ctx_t *c, size_t i, char *tok)
         else { void *al = 0; if (posix_memalign(&al, 64, n ? n : 1)) exit(3); memcpy(al, d, n); r = C14_Root_clone_as_root(B, C14_Root_as_root(al)); free(al); }
     }
     else if (IS("rm")) { c->refmap_on = atoi(A(1)); flatcc_builder_set_refmap(B, c->refmap_on ? &c->refmap : 0); r = 0; }
-    else if (IS("ri")) { static char fake[1 << 16]; long long k, cnt = atoll(A(1)); for (k = 0; k < cnt && k < (1 << 16); ++k) flatcc_builder_refmap_insert(B, fake + k, (flatcc_builder_ref_t)(-4 * (k + 1))); r = (long long)c->refmap.count; }
+    else if (IS("ri")) {
+        /* ri:<n>[:<lookups>] inserts n distinct keys; -1 when an insert returned flatcc_refmap_not_found (documented for a failed growth);
+           then looks up <lookups> absent keys (must all be not_found) */
+        static char fake[1 << 17]; long long k, cnt = atoll(A(1)), nl = nf > 2 ? atoll(A(2)) : 0; int failed = 0;
+        for (k = 0; k < cnt && k < (1 << 16); ++k)
+            if (flatcc_builder_refmap_insert(B, fake + k, (flatcc_builder_ref_t)(-4 * (k + 1))) == flatcc_refmap_not_found) failed = 1;
+        for (k = 0; k < nl; ++k) if (flatcc_builder_refmap_find(B, fake + (1 << 16) + k) != flatcc_refmap_not_found) failed = 2;
+        r = failed ? -failed : (long long)c->refmap.count;
+    }
 #ifdef RO_EXTRA
     else if (RO_EXTRA(c, i, f, nf, &r)) { }
 #endif
